@@ -642,6 +642,7 @@ func (en *DefaultEngine) Flush(ctx context.Context, w io.Writer) (int, error) {
 		if len(r) > 0 {
 			l, err = io.WriteString(w, r)
 			if err != nil {
+				en.endIfExiting(ctx)
 				return l, err
 			}
 		}
@@ -650,6 +651,7 @@ func (en *DefaultEngine) Flush(ctx context.Context, w io.Writer) (int, error) {
 		logg.TraceCtxf(ctx, "have exit", "exit", en.exit)
 		n, err := io.WriteString(w, en.exit)
 		if err != nil {
+			en.endIfExiting(ctx)
 			return l, err
 		}
 		l += n
@@ -660,6 +662,14 @@ func (en *DefaultEngine) Flush(ctx context.Context, w io.Writer) (int, error) {
 	}
 
 	return l, err
+}
+
+// a session that has ended is unwound also when its last page could not be written.
+func (en *DefaultEngine) endIfExiting(ctx context.Context) {
+	if en.exiting {
+		en.reset(ctx)
+		en.exiting = false
+	}
 }
 
 // start execution over at top node while keeping current state of client error flags.
